@@ -54,6 +54,10 @@ def offending_writes(ctx, cg, ef, reach, fam, geometry_ok=True):
                 if w.kind in ("mutcall:add",):
                     continue
             if w.attr not in DESIGN_STATE and w.attr != "errors":
+                # state of a block that is neither design state nor one of the named memos: a library call that leaves new
+                # per-block state behind makes later calls on the same block depend on earlier ones
+                if w.cls is not None and w.cls.fq in fam and w.attr not in ALLOWED:
+                    yield f, w
                 continue
             # receiver class: known and not a Block -> some other object's attribute of the same name
             if w.cls is not None and w.cls.fq not in fam:
